@@ -13,6 +13,8 @@ def configs(tier, seed):
     for n, K in sizes:
         for part in sup.partitions(n, 2, K):
             for branch in ("pre", "fn"):
+                if n >= 5 and branch == "fn":
+                    continue          # the callable branch is covered up to n = 4; n = 5 runs the matrix branch
                 cfgs.append(dict(n=n, K=K, part=list(part), branch=branch, weight=10 ** n,
                                  wstride=7 if n <= 3 else (97 if n == 4 else 4001)))
     return cfgs
